@@ -8,15 +8,25 @@ FORBIDDEN = re.compile(r"\b(sorry|admit|native_decide|bv_decide|implemented_by|u
 
 
 class Lock:
+    """exclusive lock on the Lake project, re-entrant within one process (translators + build + audit of one check form one critical
+    section, so that a concurrent check of ANOTHER tree cannot swap the generated tables between this check's translation and its build)"""
+    _depth = 0
+    _f = None
+
     def __enter__(self):
-        os.makedirs(os.path.join(LEAN, ".lake"), exist_ok=True)
-        self.f = open(os.path.join(LEAN, ".lake", "verif.lock"), "w")
-        fcntl.flock(self.f, fcntl.LOCK_EX)
+        if Lock._depth == 0:
+            os.makedirs(os.path.join(LEAN, ".lake"), exist_ok=True)
+            Lock._f = open(os.path.join(LEAN, ".lake", "verif.lock"), "w")
+            fcntl.flock(Lock._f, fcntl.LOCK_EX)
+        Lock._depth += 1
         return self
 
     def __exit__(self, *a):
-        fcntl.flock(self.f, fcntl.LOCK_UN)
-        self.f.close()
+        Lock._depth -= 1
+        if Lock._depth == 0:
+            fcntl.flock(Lock._f, fcntl.LOCK_UN)
+            Lock._f.close()
+            Lock._f = None
 
 
 def build(targets, timeout=3000, copy_exe=None):
